@@ -34,7 +34,30 @@ def is_literal(tok):
 OPS = ['delete', 'duplicate', 'swap', 'replace', 'litkind', 'indent', 'truncate', 'stray',
        'insert', 'dupline', 'delline',
        # edits that keep the text well formed but confuse its meaning (reach the semantic passes)
-       'rename', 'adddefault', 'wraptype', 'docref', 'setvalue']
+       'rename', 'adddefault', 'wraptype', 'docref', 'setvalue', 'recursive']
+ALIAS_LINE = re.compile(r'^alias ([A-Za-z_][A-Za-z0-9_]*) = ([^\n#]+)', re.M)
+RECURSIVE_SHAPES = ['List(%s)', 'Map(String, %s)', 'List(%s?)', '%s?', 'Map(String, List(%s))', 'List(List(%s), max_items=2)', '%s']
+
+
+def _recursive_alias(text, pos, pay):
+    """Make an alias refer to itself (or two aliases to each other) through containers / nullables."""
+    ms = list(ALIAS_LINE.finditer(text))
+    if not ms:
+        return text
+    a = ms[pos % len(ms)]
+    shape = RECURSIVE_SHAPES[pay % len(RECURSIVE_SHAPES)]
+    if len(ms) >= 2 and (pay // 7) % 2:
+        b = ms[(pos + 1 + pay // 14) % len(ms)]
+        if b.start() != a.start():
+            first, second = sorted([a, b], key=lambda m: m.start())
+            rep = {first.start(): shape % second.group(1),
+                   second.start(): RECURSIVE_SHAPES[(pay // 3) % len(RECURSIVE_SHAPES)] % first.group(1)}
+            out = text
+            for m in (second, first):
+                out = out[:m.start(2)] + rep[m.start()] + out[m.end(2):]
+            return out
+    return text[:a.start(2)] + (shape % a.group(1)) + text[a.end(2):]
+
 IDENT_RE = re.compile(r'[A-Za-z_][A-Za-z0-9_]*')
 KEYWORDS = {'struct', 'union', 'union_closed', 'route', 'alias', 'namespace', 'import', 'patch',
             'annotation', 'annotation_type', 'extends', 'deprecated', 'by', 'attrs', 'example'}
@@ -96,6 +119,8 @@ def apply_edit(text, edit):
     """edit = (op, position 0..9999, payload 0..9999); total function (returns text unchanged
     when the op does not apply)."""
     op, pos, pay = edit
+    if op == 'recursive':
+        return _recursive_alias(text, pos, pay)
     toks = tokenize(text)
     solid = _solid(toks)
     if not solid:
